@@ -1,4 +1,6 @@
 # C06 — fingerprint_url ignores case, port, language subdomain and optionally the suffix.
+import re
+
 from . import common
 from .common import Exc
 from .oracle_env import env_for
@@ -63,6 +65,9 @@ def run(res, tier, rng):
                             break
                         w = su.copy(); w.host = su.host[: -len(base_suffix)] + sfx
                         # the swapped host must have exactly that suffix ('x' + '.se' is itself the public suffix 'x.se')
+                        # ... and must not bring in a label that is itself irrelevant ('x.m.se': the 'm.' label goes, leaving the suffix 'x.se')
+                        if any(re.fullmatch(r"www\d?|m|mobile|amp", lab) for lab in sfx.lower().split(".")):
+                            continue
                         if psl_len(rules_by_tld.get(w.host.lower().rsplit(".", 1)[-1], []), w.host.lower().split(".")) != sfx.count(".") + 1:
                             continue
                         variants.append(("suffix swap " + sfx, w.render()))
